@@ -50,6 +50,10 @@ class C02(XsProp):
     def nontrivial(self, line):
         return True
 
+    D24 = ('recording enabled before compiling a source with a meta block: build-time execution writes reverse-log '
+           'entries without an instruction boundary, and a later rnext crosses into them (witness: rec on; compile '
+           '"#( [ 1 ] #) 2"; next; rnext)')
+
     def known(self, text, impl, spec):
         # D24: recording enabled while a source with a meta block is built
         m = re.search(r'case: (xs [^\n]*)', text)
@@ -57,9 +61,7 @@ class C02(XsProp):
         if case.startswith('xs rec on') and ' compile ' in case:
             srcs = src_of(case)
             if srcs and '#(' in srcs[0]:
-                return ('recording enabled before compiling a source with a meta block: build-time execution writes reverse-log '
-                        'entries without an instruction boundary, and a later rnext crosses into them (witness: rec on; compile '
-                        '"#( [ 1 ] #) 2"; next; rnext)')
+                return self.D24
         return None
 
     def group_check(self, cases, impl):
